@@ -471,9 +471,18 @@ def rule_r6(repo, run):
     tm = repo.module("typemap")
     ini = tm.func("initialize")
     first = [st for st in ini.body if not (isinstance(st, ast.Expr) and isinstance(st.value, ast.Constant))][0]
+    # the global that set_global_types() rebinds is the registry; emptying it in place is the same reset
+    sg = tm.func("set_global_types")
+    regs = set(x for g in ast.walk(sg) if isinstance(g, ast.Global) for x in g.names)
     ok = isinstance(first, ast.Expr) and isinstance(first.value, ast.Call) and \
         (pyflow.call_name(first.value) or "") == "set_global_types" and first.value.args and \
-        isinstance(first.value.args[0], ast.Dict) and not first.value.args[0].keys
+        (isinstance(first.value.args[0], ast.Dict) and not first.value.args[0].keys or
+         isinstance(first.value.args[0], ast.Call) and pyflow.call_name(first.value.args[0]) == "dict"
+         and not first.value.args[0].args and not first.value.args[0].keywords)
+    if not ok and isinstance(first, ast.Expr) and isinstance(first.value, ast.Call) and isinstance(first.value.func, ast.Attribute) \
+            and first.value.func.attr == "clear" and isinstance(first.value.func.value, ast.Name) \
+            and first.value.func.value.id in regs:
+        ok = True
     early = [r for r in ast.walk(ini) if isinstance(r, ast.Return) and r.lineno < ini.body[-1].lineno and
              any(True for t, pol in pyflow.dominating_tests(r, stop=ini))]
     run.check(R, "typemap.initialize:fresh-registry", ok and not early,
